@@ -530,6 +530,64 @@ func runC13(r *Run) {
 		r.atLeast("default MaxFunc assignments in configDefault", n, 1)
 	})
 
+	r.rule("R17", "seconds become a Duration by multiplication: the time left in the window is a count of seconds (item.exp - timestamp); wherever the sliding window converts such a count to time.Duration on the way to manager.set, the conversion is multiplied by a unit of at least time.Second before it meets another Duration — `time.Duration(resetInSec) + cfg.Expiration` adds nanoseconds to a duration, the entry then lives one Expiration instead of into the next window and the previous window's hits are gone when they should weigh (E3: unit of the converted value)", func() {
+		h := limiterHandlers(r)["SlidingWindow"]
+		r.need(h != nil, "sliding-window handler")
+		n := 0
+		isSecondsCount := func(v ssa.Value) bool {
+			return dependsOn(v, func(x ssa.Value) bool {
+				if fa, ok := x.(*ssa.FieldAddr); ok {
+					if fv := fieldOfValue(fa); fv != nil && fv.Name() == "exp" {
+						return true
+					}
+				}
+				if c, ok := x.(*ssa.Call); ok && strings.HasSuffix(calleeName(&c.Call), ".Timestamp") {
+					return true
+				}
+				return false
+			}) != nil
+		}
+		for _, g := range append([]*ssa.Function{h}, helpersOf(h)...) {
+			for _, b := range g.Blocks {
+				for _, in := range b.Instrs {
+					cv, ok := in.(*ssa.Convert)
+					if !ok || !strings.HasSuffix(cv.Type().String(), "time.Duration") {
+						continue
+					}
+					if bt, ok := cv.X.Type().Underlying().(*types.Basic); !ok || bt.Info()&types.IsInteger == 0 || strings.HasSuffix(cv.X.Type().String(), "time.Duration") {
+						continue
+					}
+					if !isSecondsCount(cv.X) || cv.Referrers() == nil {
+						continue
+					}
+					n++
+					okUnit := true
+					for _, u := range *cv.Referrers() {
+						bo, isBin := u.(*ssa.BinOp)
+						if !isBin {
+							if _, isDbg := u.(*ssa.DebugRef); isDbg {
+								continue
+							}
+							okUnit = false
+							continue
+						}
+						other := bo.Y
+						if bo.Y == ssa.Value(cv) {
+							other = bo.X
+						}
+						k, isK := constInt(asConst(other))
+						if bo.Op != token.MUL || !isK || k < 1000000000 {
+							okUnit = false
+						}
+					}
+					r.check(okUnit, fmt.Sprintf("SlidingWindow:seconds-to-Duration#%d:multiplied-by-a-unit", n), r.pos(in), "the converted count of seconds is multiplied by time.Second (or a larger unit)",
+						"a count of seconds is converted to time.Duration and used without being multiplied by time.Second: it counts as nanoseconds — the entry's lifetime is the Expiration alone, a key that spent its budget early in window W has no entry left in W+1 and gets a second full burst (the sliding window degrades to a fixed one)")
+				}
+			}
+		}
+		r.atLeast("conversions of a seconds count to time.Duration in the sliding window", n, 1)
+	})
+
 	r.rule("R14", "a request's outcome is judged by what the client will get: where a handler decides whether the request failed (a status compared with 400, behind SkipSuccessfulRequests / SkipFailedRequests), the status takes the error c.Next() returned into account — a handler that fails by returning an error still has status 200 at that point, the error handler runs later (E3)", func() {
 		n := 0
 		for _, name := range []string{"FixedWindow", "SlidingWindow"} {
